@@ -85,6 +85,35 @@ def reading_cases(draw, subject, max_extra=60):
     }
 
 
+RECURSIVE = ("EMA", "RMA", "ATR", "RSI", "OBV", "VWAP", "Counter", "KC", "MACD", "TSI", "Supertrend", "ADX")
+
+
+@st.composite
+def recursive_cases(draw, subject):
+    """a purely recursive indicator is seeded during a fast burst and then fed slowly, one candle per append,
+    with a lifespan that keeps the predecessor of every new candle but fewer than `period` candles"""
+    cfg = draw(gc.config(subject))
+    for k in list(cfg["kw"]):
+        if "period" in k and isinstance(cfg["kw"][k], int):
+            cfg["kw"][k] = max(cfg["kw"][k], draw(st.integers(4, 12)))
+    if subject == "MACD" and cfg["kw"]["fast_period"] >= cfg["kw"]["slow_period"]:
+        cfg["kw"]["slow_period"] = cfg["kw"]["fast_period"] + 2
+    w = gc.warmup(cfg)
+    fast = draw(st.sampled_from((1, 5, 10)))
+    burst = w + draw(st.integers(3, 10))
+    keep = draw(st.integers(3, 5))  # candles retained in the slow phase (>= predecessor + the new one + 1)
+    slow = -(-(burst + 4) * fast // keep) + 1  # so that keep*slow covers the whole burst
+    life = keep * slow
+    tail = draw(st.integers(5, 25))
+    prices = draw(gs.price_rows(burst + tail))
+    ts, t = [], gs.BASE_DAY
+    for i in range(burst + tail):
+        ts.append(t)
+        t += fast if i < burst - 1 else slow
+    rows = [[a] + r for a, r in zip(ts, prices)]
+    return {"kind": "readings", "cfg": cfg, "tf": None, "fill": False, "lifespan": life, "ha": False, "stream": rows, "preload": 0, "preload_calc": True, "chunks": [burst] + [1] * tail, "recursive": True}
+
+
 def _mk(case, lifespan):
     from hexital.core.candle_manager import CandleManager
 
@@ -111,7 +140,7 @@ def _mk(case, lifespan):
 def run_case(case) -> Result:
     subject = gc.subject_of(case["cfg"]) if "cfg" in case else "retention"
     life = case["lifespan"]
-    labels = [case["kind"]] + (["ha"] if case.get("ha") else [])
+    labels = [case["kind"]] + (["ha"] if case.get("ha") else []) + (["recursive_short_window"] if case.get("recursive") else [])
     try:
         free, _ = _mk(case, None)
     except Exception:
@@ -198,6 +227,8 @@ def shards(tier):
     for s in gc.CLASSES:
         cost = 3 if s in ("ADX", "TSI", "STOCH", "MACD", "HMA", "Supertrend") else 1
         out.append(Shard("readings:" + s, (lambda s=s: reading_cases(s)), m, subject=s, cost=cost))
+    for s in RECURSIVE:
+        out.append(Shard("recursive:" + s, (lambda s=s: recursive_cases(s)), m, subject=s, cost=2))
     for s in ("fn:rising", "fn:highest", "fn:crossover", "fn:doji", "fn:hammer", "fn:mean_rising"):
         out.append(Shard("readings:" + s, (lambda s=s: reading_cases(s)), m, subject=s))
     return out
